@@ -147,8 +147,12 @@ class CoordinationSystem:
             )
 
         except Exception as e:
-            # Abort on any error
-            self.controller.abort_operation(ctx, reason=str(e))
+            # Abort on any error - whatever the exception looks like, the resources go back first
+            try:
+                reason = str(e)
+            except Exception:
+                reason = type(e).__name__
+            self.controller.abort_operation(ctx, reason=reason)
 
             duration_ms = (time.time() - start_time) * 1000
 
@@ -156,7 +160,7 @@ class CoordinationSystem:
                 operation_id=operation_id,
                 success=False,
                 phase_reached=ctx.phase,
-                error=str(e),
+                error=reason,
                 duration_ms=duration_ms,
             )
 
